@@ -21,6 +21,14 @@ import (
 type wireEnd interface {
 	Write(b []byte) (int, error)
 	readFull(n int, d time.Duration) ([]byte, bool)
+	drain() // discard whatever the peer still writes, so that it can be closed
+}
+
+func (c *memConn) drain() {}
+
+func (e netEnd) drain() {
+	_ = e.c.SetReadDeadline(time.Time{})
+	go io.Copy(io.Discard, e.c) //nolint:errcheck
 }
 
 func (c *memConn) readFull(n int, d time.Duration) ([]byte, bool) { return c.readFullTimeout(n, d) }
@@ -115,14 +123,19 @@ func probeSend(peer wamp.Peer, w wireEnd, ser serialize.Serializer, sizes []int)
 		msg, b := sizedMsg(ser, size)
 		sentinel := goodbye(fmt.Sprint(i))
 		sb, _ := ser.Serialize(sentinel)
-		peer.Send() <- msg
-		peer.Send() <- sentinel
+		// a client-side peer has an unbuffered send queue and a real socket
+		// has a bounded buffer: feed the peer while the wire is being read
+		go func() {
+			peer.Send() <- msg
+			peer.Send() <- sentinel
+		}()
 		verdict := "dropped"
 		for {
 			hdr, body, ok := readFrame(w, 20*time.Second)
 			if !ok {
 				verdict += "+wire-stalled"
 				res = append(res, fmt.Sprintf("%d:%s", size, verdict))
+				w.drain()
 				return strings.Join(res, ";")
 			}
 			if bytes.Equal(body, sb) && hdr[0] == 0 {
@@ -134,6 +147,7 @@ func probeSend(peer wamp.Peer, w wireEnd, ser serialize.Serializer, sizes []int)
 			}
 			verdict = "garbled:" + hexs(hdr)
 			res = append(res, fmt.Sprintf("%d:%s", size, verdict))
+			w.drain()
 			return strings.Join(res, ";")
 		}
 		res = append(res, fmt.Sprintf("%d:%s", size, verdict))
@@ -152,7 +166,17 @@ func probeRecv(peer wamp.Peer, w wireEnd, ser serialize.Serializer, sizes []int)
 		_, b := sizedMsg(ser, size)
 		want, _ := canon(ser, b)
 		if _, err := w.Write(frameBytes(0, b)); err != nil {
-			res = append(res, fmt.Sprintf("%d:write-error", size))
+			// the peer may close as soon as it has seen the header: a failed
+			// write of the rest is the same observation as "closed"
+			verdict := "write-error"
+			select {
+			case _, ok := <-peer.Recv():
+				if !ok {
+					verdict = "closed"
+				}
+			case <-time.After(5 * time.Second):
+			}
+			res = append(res, fmt.Sprintf("%d:%s", size, verdict))
 			break
 		}
 		select {
